@@ -1027,7 +1027,9 @@ func (t *tScreen) TPuts(s string) {
 
 func (t *tScreen) Show() {
 	t.Lock()
-	if !t.fini {
+	// While suspended or after Fini the terminal is not ours (and the
+	// cell buffer has been released, which the draw loop cannot cope with).
+	if !t.fini && t.running {
 		t.resize()
 		t.draw()
 	}
@@ -1956,7 +1958,7 @@ func (t *tScreen) Sync() {
 	t.Lock()
 	t.cx = -1
 	t.cy = -1
-	if !t.fini {
+	if !t.fini && t.running {
 		t.resize()
 		t.clear = true
 		t.cells.Invalidate()
